@@ -569,7 +569,12 @@ func runHistory(c *Ctx, tag string, toks []string, nontrivial bool) {
 		c.Count("impl:buffered-write-drops-frames-over-receiveMTU=" + wdrop)
 	}
 	if len(toks) >= 6 && toks[0] == "cfg" {
-		toks[5] = wdrop
+		if toks[5] == ";" {
+			// a case recorded before the probe token existed
+			toks = append(toks[:5:5], append([]string{wdrop}, toks[5:]...)...)
+		} else {
+			toks[5] = wdrop
+		}
 	}
 	segs := splitOps(toks)
 	h := newHist(segs[0])
